@@ -69,4 +69,9 @@ CHECKS["C11"] = dict(level="exploration", technique="exact rational reference mo
          "inside, on and outside the table is replayed through computeLinearInterpolation(AndDerivative)<extrapolate>, CubicSpline "
          "getValue/getValues/computeIntegral/computeMeanValue and computeCubicSplineInterpolation<false>; TLC compares exact integers.",
     note="Tables of at most 4-5 nodes with integer data (the statement speaks of up to 50 nodes).", ref="8/C11")
+CHECKS["C15"] = dict(level="exploration", technique="TLC-generated parameter sweep around the branch threshold + relational obligations judged by TLC (Discretization.tla)",
+    text="The obligations (n+1 nodes, exact end points, strict monotonicity, constant length ratio) are stated on CLASS/SIGN-abstracted "
+         "observations; GEN sweeps density ratios 1 +- 2^-k (k=2..30) on both sides of the code's near-uniform threshold, far ratios, "
+         "4 intervals and n from 1 to 1e5; the ratio obligation is judged against an a-priori rounding bound of the differences.",
+    note="Relational oracle (no exact node positions); the bound on ratio constancy is derived from the rounding of differences, not tuned.", ref="8/C15")
 NOT_APPLICABLE = {}
